@@ -147,7 +147,7 @@ fn main() {
     println!("DISTINCT {}", st.distinct_outputs.len());
     for (f, c) in &st.panic_counts { println!("PANICCOUNT fn={} count={}", f, c); }
     for (f, input, msg) in &st.panics {
-        println!("PANIC fn={} input={:?} msg={:?}", f, input, msg);
+        println!("FAIL fn={} input={:?} msg={:?}", f, input, msg);
     }
     std::process::exit(if st.panics.is_empty() { 0 } else { 1 });
 }
